@@ -266,6 +266,10 @@ func c10PointerFor(r *rand.Rand, doc any) []string {
 			ks := sortedKeys(x)
 			if len(ks) > 0 && r.Intn(6) != 0 {
 				k := ks[r.Intn(len(ks))]
+				if sub, ok := x[k].(map[string]any); ok && len(sub) > 0 && r.Intn(5) == 0 {
+					// the dotted spelling of a nested member is a member name of its own (usually absent)
+					k = k + "." + sortedKeys(sub)[r.Intn(len(sub))]
+				}
 				toks = append(toks, k)
 				cur = x[k]
 			} else {
@@ -345,6 +349,9 @@ func init() {
 				c10Eval(map[string]any{"a": []any{1, 2}}, []string{"a", "x", "0"}), // skip of non-numeric token
 				c10Eval(map[string]any{"a": []any{1, 2}}, []string{"a", "-1"}),     // negative index
 				c10Eval(map[string]any{"a": []any{1, 2}}, []string{"a", "01"}),     // non-canonical index
+				c10Eval(map[string]any{"a": map[string]any{"b": 1}, "a.b": 2, "": 3}, []string{"a.b"}),
+				c10Eval(map[string]any{"a": map[string]any{"b": 1}}, []string{"a.b"}),
+				c10Eval(map[string]any{"": map[string]any{"": 3}}, []string{"", ""}),
 				c10Print([]string{""}),
 				c10Print([]string{}),
 				c10Parse("/"),
@@ -401,6 +408,9 @@ func init() {
 				return c10Parse(string(rs))
 			case 2:
 				o := defaultOpts()
+				if r.Intn(3) == 0 { // a reference token is a member name taken literally: dots, slashes and the empty name included
+					o.keys = []string{"a", "b", "a.b", "", "x.y", "app.kubernetes.io/name", "rev.v1", "x"}
+				}
 				doc := genDoc(r, o)
 				return c10Eval(doc, c10PointerFor(r, doc))
 			default:
